@@ -10,7 +10,8 @@ SHARDS = {"quick": 4, "thorough": 16}
 WATCHDOG = {"quick": 900, "thorough": 7200}
 CASES = {"quick": 160, "thorough": 900}  # per shard
 FLOORS = {
-    "quick": {"distinct_nontrivial": 100, "rows_checked": 20000, "cases[GaussianCovCost]": 30},
+    "quick": {"distinct_nontrivial": 100, "rows_checked": 20000, "cases[GaussianCovCost]": 30,
+              "cases[int64 data]": 25},
     "thorough": {"distinct_nontrivial": 2000, "rows_checked": 500000},
 }
 ANCHORS = [
@@ -89,7 +90,9 @@ def make_recipe(rng, tier):
     dk = ALL_KINDS[int(rng.integers(len(ALL_KINDS)))]
     X, meta = gen_data(rng, n, p, dk)
     pspec, _, mode = _param(rng, kind, p)
+    int_dtype = bool(dk in ("small_alphabet", "constant", "piecewise_const") and rng.random() < 0.5)
     return {
+        "int_dtype": int_dtype,
         "kind": kind, "param": pspec, "mode": mode, "data_kind": dk, "X": X,
         "sub_seed": int(rng.integers(2 ** 31)),
     }
@@ -116,8 +119,10 @@ def exec_case(ctx, r):
     ctx.stat(f"data[{r['data_kind']}]")
     cost = build(S(kind, param=r["param"]))
     param = _plain_param(kind, r["param"])
+    if r.get("int_dtype"):
+        ctx.stat("cases[int64 data]")
     try:
-        cost.fit(X)
+        cost.fit(X.astype(np.int64) if r.get("int_dtype") else X)
     except Exception as ex:  # valid parameter + finite data must fit
         ctx.violation(sub, "fit-exception", f"fit raised {type(ex).__name__}: {ex}", r)
         return
